@@ -196,3 +196,7 @@ Qed.
 
 Lemma der_decode_inj_l a b r s : der_decode a = Some (r, s) -> der_decode b = Some (r, s) -> a = b.
 Proof. intros Ha Hb. apply der_decode_strict_l in Ha, Hb. congruence. Qed.
+
+(* a P1363 signature with ONE byte inserted or deleted has odd length and is rejected whatever the bytes are *)
+Lemma p1363_odd_rejected_l b : Nat.even (length b) = false -> p1363_decode b = None.
+Proof. intro H. unfold p1363_decode. rewrite H. simpl negb. rewrite !orb_true_r. reflexivity. Qed.
